@@ -342,7 +342,7 @@ func runTopo(e *Env) {
 			}
 		}
 		pick := func() *node.Host { return others[tp.Next(len(others))] }
-		ws := []int{3, 3, 2, 2, 2, 2, 1, 1, 2, 1, 2, 0, 2, 0, 0, 0, 0, 2, 0}
+		ws := []int{3, 3, 2, 2, 2, 2, 1, 1, 2, 1, 2, 0, 2, 0, 0, 0, 0, 2, 0, 2}
 		if len(others) >= 1 && (!st.noLookup || st.firstRefresh) {
 			ws[18] = 2
 		}
@@ -359,10 +359,10 @@ func runTopo(e *Env) {
 			ws[1], ws[2], ws[3], ws[4], ws[6], ws[7] = 0, 0, 0, 0, 0, 0
 		}
 		if len(cl.Hosts) >= 6 {
-			ws[0], ws[13], ws[14], ws[15] = 0, 0, 0, 0
+			ws[0], ws[13], ws[14], ws[15], ws[19] = 0, 0, 0, 0, 0
 		}
 		if e.NoFaults {
-			ws = []int{1, 0, 0, 0, 0, 0, 0, 0, 1, 0, 0, 0, 0, 0, 0, 0, 0, 0, 0}
+			ws = []int{1, 0, 0, 0, 0, 0, 0, 0, 1, 0, 0, 0, 0, 0, 0, 0, 0, 0, 0, 0}
 		}
 		peersBefore := cl.PeerQueries
 		preDown := map[string]bool{} // reported down before this step
@@ -736,6 +736,26 @@ func runTopo(e *Env) {
 				k.Probe("down-during-first-dial")
 			}
 			slowHost = ""
+		case 19: // a node joins and is connected to; the goroutine that announces the first
+			// connection (host up, policy told) is slow to get going, and the node is gone
+			// again - reported, and removed by the refresh - before it does
+			h := st.newHost()
+			cl.Hosts = append(cl.Hosts, h)
+			k.Rec("step join %s, gone again before its first connection is announced", h.Addr)
+			k.Fault("topo.leave-before-first-connection-is-announced")
+			k.ArmNext("session.nodeConnected")
+			st.eventFor("TOPOLOGY_CHANGE", "NEW_NODE", h)
+			held := k.SettleUntil(4*time.Second, 20*time.Millisecond, pump, func() bool { return len(k.ParkedKeys()) > 0 })
+			k.Disarm("session.nodeConnected")
+			if held {
+				k.Probe("first-connection-announcement-held")
+				st.removeModel(h)
+				st.unreachable(h.Addr)
+				k.Rec("  %s leaves", h.Addr)
+				st.eventFor("TOPOLOGY_CHANGE", "REMOVED_NODE", h)
+				k.SettleUntil(3*time.Second, 20*time.Millisecond, pump, func() bool { return false })
+			}
+			k.ResumeAll()
 		case 11: // same host id, same rpc address, new node-to-node address
 			h := pick()
 			st.nextIP++
